@@ -50,6 +50,9 @@ class CoqResult:
         self.cmd = ''
 
 
+COQC_LIMITED = os.path.join(VERIF, 'harness', 'coqc_limited.sh')
+
+
 def _lock():
     f = open(os.path.join(COQ, '.build.lock'), 'w')
     fcntl.flock(f, fcntl.LOCK_EX)
@@ -71,7 +74,8 @@ def coq_make(targets, timeout=1500, jobs=8):
     lock = _lock()
     try:
         ensure_makefile()
-        cmd = ['timeout', str(timeout), 'make', '-j%d' % jobs] + list(targets)
+        # per-file limits: a runaway tactic must not eat the box (a file that needs > 15 min or > 14 GB is broken)
+        cmd = ['timeout', str(timeout), 'make', '-j%d' % jobs, 'COQC=%s' % COQC_LIMITED] + list(targets)
         p = subprocess.run(cmd, cwd=COQ, stdout=subprocess.PIPE, stderr=subprocess.STDOUT, text=True)
         return p.returncode == 0, p.stdout
     finally:
